@@ -156,7 +156,9 @@ def mon_c02(h, obs):
             if not b.ok:
                 continue
             for tx in b.txs:
-                if tx.kind == "ibtp" and tx.id is not None and tx.group is not None:
+                if tx.kind == "ibtp" and tx.id is not None and tx.group is not None and tx.typ == "req":
+                    # (a REQUEST with a Group begins a one-to-many child; a receipt that merely carries a Group field for a
+                    # one-to-one request finalises it like any other receipt and is counted — seeding round 27)
                     grouped.add((tx.frm, tx.to))
             listed = {}
             for c, vs in b.counter.items():
